@@ -99,6 +99,12 @@ impl<'a> SectionsBuilder<'a> {
             return;
         }
 
+        // an empty list or quote (only empty items inside) gives the item neither text nor
+        // content: the item starts with the block after it
+        if is_blank(&blocks[range.start]) {
+            return self.process_section(range.start + 1..range.end, blocks);
+        }
+
         self.section_block(&blocks[range.start]);
 
         let id = self.builder.id();
@@ -246,6 +252,15 @@ impl<'a> SectionsBuilder<'a> {
 
     fn set_lines_range(&mut self, line_range: LineRange) {
         self.nodes_map.push((self.builder.node().id(), line_range));
+    }
+}
+
+fn is_blank(block: &DocumentBlock) -> bool {
+    match block {
+        BulletList(list) => list.items.iter().all(|item| item.iter().all(is_blank)),
+        OrderedList(list) => list.items.iter().all(|item| item.iter().all(is_blank)),
+        BlockQuote(quote) => quote.blocks.iter().all(is_blank),
+        _ => false,
     }
 }
 
